@@ -26,7 +26,7 @@ C_LIGHT = 299792458.0
 
 def REQUIRED(tier):
     return ["kernel_direct", "filterbank_fold", "timeseries_fold", "pulse_train", "conservation_checks", "cell_count_checks", "gulp_identity_checks",
-            "regime:gulp<2*maxdelay", "regime:nbands_not_dividing", "regime:accel!=0", "regime:multi_block", "canary_audits", "regime:multi_file_input", "long_folds", "pulse_train_edge_bins", "regime:nbands>nchans", "regime:small_accel_long_fold", "subint_edge_folds", "regime:fold_after_a_failed_fold", "regime:series_header_carries_accel", "regime:file_header_carries_refdm"]
+            "regime:gulp<2*maxdelay", "regime:nbands_not_dividing", "regime:accel!=0", "regime:multi_block", "canary_audits", "regime:multi_file_input", "long_folds", "pulse_train_edge_bins", "regime:nbands>nchans", "regime:small_accel_long_fold", "subint_edge_folds", "regime:fold_after_a_failed_fold", "regime:series_header_carries_accel", "regime:file_header_carries_refdm", "fold_again_after_in_place_change"]
 
 
 def cases(tier, seed):
@@ -126,6 +126,19 @@ def _long(case, ctx):
         else:
             ctx.violation("long-fold-cells", f"TimeSeries.fold of {N} samples: {nd} of {w1.size} cells differ from the phase-model mean (period/tsamp={period/tsamp:.3f}, nbins={nbins}, nints={nints}, accel={accel})", one)
             return
+    # the same call again on the same series object after the caller has looked at the cube (re-tuned it) and added 1 to every sample: the
+    # second cube is that of the samples the series holds now
+    tsr = TimeSeries(x.copy(), hdr)
+    with np.errstate(all="ignore"):
+        fda = tsr.fold(period, accel=accel, nbins=nbins, nints=nints)
+        first = np.array(fda.data, copy=True)
+        fda.update_period(period * (1 + 1e-4))
+        np.asarray(tsr.data)[...] += 1.0
+        fdb = tsr.fold(period, accel=accel, nbins=nbins, nints=nints)
+    ctx.evaluated(); ctx.count("fold_again_after_in_place_change")
+    if not np.allclose(np.asarray(fdb.data), first + 1.0, rtol=1e-6, atol=0, equal_nan=True):
+        ctx.violation("second-fold-is-not-of-the-current-samples", f"TimeSeries.fold repeated with the same arguments after the cube was re-tuned and the samples were raised by 1: the second cube is not the first + 1", one)
+        return
     ctx.nontrivial_case(one)
     if case["seed"] % 3 == 0:
         ctx.sample({"kind": "long", "geom": one["geom"], "occupied_cells": int(np.count_nonzero(c1))})
